@@ -432,7 +432,7 @@ commentLineLoop:
 			} else if err != nil {
 				return "", err
 			}
-			if b == '\n' || b == '\r' || b > 32 {
+			if b == '\n' || b == '\r' || b == '\f' || b > 32 {
 				break
 			}
 			s.SkipByte()
@@ -448,6 +448,8 @@ commentLineLoop:
 				break
 			} else if b == '\r' { // CR or CR+LF
 				s.SkipOptionalByte(10)
+				break
+			} else if b == '\f' { // FF ends a comment, too
 				break
 			}
 			buf.WriteByte(b)
